@@ -179,7 +179,19 @@ def partitionAgrees (rep cls : Array Nat) : Option String := Id.run do
       return some s!"vertex {i}: coincides with vertex {rep[i]!} in the mesh, model class starts at {first}"
   return none
 
-def handle (case impl : List String) : Verdict :=
+/-- `Box::cube(side)` is `Box { (-l,-l,-l), (l,l,l) }` with `l = 0.5 * side` (platonic.rs:174-180);
+`Box::default()` is `cube(1.0)`: rewritten to the `box` case with the corners rounded as in f32. -/
+def normalizeCase (case : List String) : List String :=
+  let cube (side : Rat) : List String :=
+    let l := F32.ofRat (side / 2)
+    let nl := F32.ofRat (-(F32.toRatD l))
+    ["box", hex8 nl, hex8 nl, hex8 nl, hex8 l, hex8 l, hex8 l]
+  match case with
+  | ["cube", s] => match ratTok s with | some q => cube q | none => case
+  | ["boxdef"] => cube 1
+  | _ => case
+
+def handleN (case impl : List String) : Verdict :=
   match expectOf case with
   | none => bad "case"
   | some ex =>
@@ -284,5 +296,12 @@ def handle (case impl : List String) : Verdict :=
           | none => v
         | _, _, _, _, _, _ => v
       | none, _ => v
+
+def handle (case impl : List String) : Verdict :=
+  let v := handleN (normalizeCase case) impl
+  match case with
+  | ["cube", _] => v.addTag "cube"
+  | ["boxdef"] => v.addTag "box-default"
+  | _ => v
 
 end Retro.Drv.C15
